@@ -43,7 +43,7 @@ def gen_rows(rng, n):
         prots = [("REV__" if (decoy or rng.random() < 0.15) else "") + f"P{rng.randrange(5)}" for _ in range(k)]
         prots = list(dict.fromkeys(prots))
         r = rng.random()
-        pep = None if r < 0.08 else rng.choice([1e-5, 0.001, 0.001, 0.02, 0.5]) if r < 0.7 else max(1e-6, round(rng.random() ** 3, 6))
+        pep = None if r < 0.08 else rng.choice([1e-5, 0.001, 0.001, 0.02, 0.5, 1.0]) if r < 0.7 else max(1e-6, round(rng.random() ** 3, 6))
         rows.append({"peptide": seq, "proteins": prots, "pep": pep, "charge": rng.choice([2, 3]),
                      "experiment": rng.choice(["E1", "E2"]), "raw": "raw1", "intensity": 1000.0, "id": i})
     return rows
